@@ -30,7 +30,7 @@ pub struct ClsCase {
 
 const ATOMS: &[&str] = &[
     "/REJT/", "/RETN/", "/RJT/", "/RET/", "/COV/", "/COVER/", "/rejt/", "/retn/", "REJT", "RETN",
-    "/REJTX/", "/RETNS/", "/XREJT/",
+    "/REJTX/", "/RETNS/", "/XREJT/", "/COVENTRY/", "/COVX",
 ];
 
 impl ClsCase {
@@ -383,6 +383,16 @@ pub fn oracle(c: &ClsCase, obs: &mut Obs) -> Vec<Violation> {
     }
     // (ii-b) cover: an MT202 is a cover message when its sequence B carries an ordering or a beneficiary
     // customer (is_cover_message: "Sequence B is present with COV fields")
+    if c.mt == "205" {
+        // MT205: a cover message carries the code word /COV/ or /COVER/ in field 72 (is_cover_message)
+        let exp_cover = has("/COV/") || has("/COVER/");
+        if o.cover != exp_cover {
+            out.push(viol(
+                format!("C17|MT205|cover|expected-{}|{}", exp_cover, c.atoms.split('@').next().unwrap_or("")),
+                format!("is_cover_message()={} for {}", o.cover, c.text()),
+            ));
+        }
+    }
     if c.mt == "202" {
         let exp_cover = matches!(c.seq_b.as_str(), "cover" | "cover-50-only" | "cover-59-only");
         if o.cover != exp_cover {
@@ -443,7 +453,7 @@ pub fn oracle(c: &ClsCase, obs: &mut Obs) -> Vec<Violation> {
 use crate::driver::Obs as _ObsAlias;
 
 pub fn run(ctx: &Ctx) {
-    ctx.add_rule("enumerated product for MT103, MT202, MT205: field 72 (absent / neutral / each of 13 code-word atoms incl. look-alikes and lower case at line start, mid-line, second line / pairs of atoms) x tag 108 (12 values, two of them 16 characters long: none, plain, code word upper / lower / mixed case, bare and embedded) x tag 119 (6 values) x MT202 sequence B (absent, 50a+59a, 50a only, 59a only, 52A only); control types without classification; non-trivial = carries at least one code word; distinct by text");
+    ctx.add_rule("enumerated product for MT103, MT202, MT205: field 72 (absent / neutral / each of 15 code-word atoms incl. look-alikes and lower case at line start, mid-line, second line / pairs of atoms) x tag 108 (12 values, two of them 16 characters long: none, plain, code word upper / lower / mixed case, bare and embedded) x tag 119 (6 values) x MT202 sequence B (absent, 50a+59a, 50a only, 59a only, 52A only); control types without classification; non-trivial = carries at least one code word; distinct by text");
     ctx.exhaustive("the whole product is enumerated");
     ctx.assume("the four classifications of a message rebuilt from its JSON (message_type spelled nnn or MTnnn, the two spellings publish_mt accepts) equal those of the parsed message");
     ctx.assume("absolute verdict only where the code word is unambiguous (exact /REJT/ or /RETN/ in 72, REJT/RETN in 108 in any letter case - the predicates fold the user reference to upper case, src/swift_message.rs has_reject_codes/has_return_codes -, no look-alike anywhere); consistency across types and plugin method are judged on all inputs");
